@@ -177,6 +177,8 @@ _SHM_GROUPS = [
     dict(name="stale", harness="shmstore", weight=2, runs=dict(quick=800, thorough=20000), opts=dict(stale=True)),
     dict(name="big", harness="shmstore", weight=2, runs=dict(quick=600, thorough=15000), opts=dict(big=True)),
     dict(name="faults", harness="shmstore", weight=3, runs=dict(quick=1200, thorough=30000), opts=dict(faults=True, stale=True)),
+    dict(name="noreuse", harness="shmstore", weight=3, runs=dict(quick=1500, thorough=40000), opts=dict(reuse=False, stale=True)),
+    dict(name="noreuse-faults", harness="shmstore", weight=2, runs=dict(quick=800, thorough=20000), opts=dict(reuse=False, stale=True, faults=True)),
     dict(name="enum-disk", harness="shmstore", weight=3, runs=dict(quick=96, thorough=4000), opts=dict(),
          enumerate=dict(kinds=["disk"], quick=30, thorough=None)),
 ]
